@@ -214,6 +214,55 @@ class Probe:
         self.members.setdefault(cpath, {})[name] = g.body
         self.predict.append(("location %s %s %s" % (enc(self.prefix), enc(cpath), enc(name)), loc, "Location of POST to " + cpath))
 
+    PROP_BODY = ('<D:propfind xmlns:D="DAV:" xmlns:C="urn:ietf:params:xml:ns:caldav" xmlns:A="urn:ietf:params:xml:ns:carddav">'
+                 '<D:prop><D:current-user-principal/><D:principal-URL/><C:calendar-home-set/><A:addressbook-home-set/>'
+                 '<C:schedule-inbox-URL/><D:add-member/><D:owner/><D:principal-collection-set/><C:calendar-user-address-set/>'
+                 '<D:resourcetype/></D:prop></D:propfind>').encode()
+
+    def check_property_hrefs(self, path, is_collection):
+        """hrefs inside property values address the resource the property names"""
+        t = self.target(path + ("/" if is_collection and not path.endswith("/") else ""))
+        r = self.srv.request("PROPFIND", t, {"Depth": "0", "Content-Type": "text/xml"}, self.PROP_BODY)
+        ms = parse_multistatus(r.body) if r.status == 207 else None
+        if not ms or not ms[0]:
+            self.viol("C16:propfind-failed", f"PROPFIND (properties) on {path} = {r.status}")
+            return
+        want = {
+            DAV + "current-user-principal": ("principal", self.base + "/user"),
+            DAV + "principal-URL": ("principal", self.base + "/user"),
+            "{%s}calendar-home-set" % CALNS: ("collection", self.base + "/user/calendars"),
+            "{%s}addressbook-home-set" % CARDNS: ("collection", self.base + "/user/contacts"),
+            "{%s}schedule-inbox-URL" % CALNS: ("schedule-inbox", self.base + "/user/inbox"),
+            DAV + "add-member": ("collection", (self.base + path).rstrip("/")),
+        }
+        for tag, (code, el) in ms[0][0]["props"].items():
+            if code != "200" or tag == DAV + "resourcetype":
+                continue
+            for h in el.iter(DAV + "href"):
+                href = h.text or ""
+                u = urllib.parse.urlsplit(urllib.parse.urljoin("http://localhost" + t, href))
+                if u.scheme not in ("http", "https") or u.netloc != "localhost":
+                    self.chk.count("property-href-not-on-this-server")
+                    continue
+                self.chk.count("property-href:" + tag.split("}")[1])
+                pr = self.srv.request("PROPFIND", u.path, {"Depth": "0"})
+                pms = parse_multistatus(pr.body) if pr.status == 207 else None
+                short = tag.split("}")[1]
+                if not pms or not pms[0]:
+                    self.viol("C16:property-href-does-not-resolve:" + short,
+                              f"{short} of {path} is {href!r}, which answers {pr.status}", {"href": href})
+                    continue
+                exp = want.get(tag)
+                if exp is None:
+                    continue
+                rt = pms[0][0]["props"].get(DAV + "resourcetype")
+                kinds = [c.tag.split("}")[1] for c in rt[1]] if rt is not None else []
+                got_path = urllib.parse.unquote(u.path).rstrip("/")
+                if exp[0] not in kinds or posixpath.normpath(got_path or "/") != posixpath.normpath(exp[1] or "/"):
+                    self.viol("C16:property-href-addresses-other-resource:" + short,
+                              f"{short} of {path} is {href!r}: resolves to {got_path!r} of type {kinds}, "
+                              f"expected {exp[1]!r} ({exp[0]})", {"href": href})
+
     def check_status_hrefs(self, cpath):
         """hrefs in PROPPATCH answers and in precondition errors address the request's resource."""
         t = self.target(cpath + "/")
@@ -265,6 +314,13 @@ def run_layout(chk, fe, prefix, names):
             if kind in ("calendar", "addressbook"):
                 p.check_reports(cpath, kind)
             p.check_status_hrefs(cpath)
+        p.check_property_hrefs("/", True)
+        p.check_property_hrefs("/user", True)
+        p.check_property_hrefs("/user", False)
+        for cpath in list(p.colls):
+            p.check_property_hrefs(cpath, True)
+            for n in list(p.members.get(cpath, {}))[:2]:
+                p.check_property_hrefs(cpath + "/" + n, False)
         for d in ("/user", "/user/calendars", "/user/contacts"):
             p.colls.setdefault(d, "dir")
         p.check_listing("/user/calendars")
